@@ -757,6 +757,40 @@ func (c *cmp) shorthandAugment(rng *rand.Rand, res *schema.Resolver, files []Fil
 		return
 	}
 	count("shorthand_augment_sets", 1)
+	// the very path text the augment used, looked up again from the augmenting module once
+	// the trees have their final shape: it names the implicit case now (the node reached by
+	// walking the same steps), not the member the augment found before the case existed
+	if zr := yang.ToEntry(ms.Modules["zzsa"]); zr != nil {
+		for _, t := range ts {
+			mod := ms.Modules[t.rm.Name]
+			if mod == nil {
+				continue
+			}
+			want := yang.ToEntry(mod)
+			p := ""
+			for _, st := range t.path {
+				p += "/t" + t.rm.Name + ":" + st
+				switch {
+				case want == nil:
+				case want.RPC != nil && st == "input":
+					want = want.RPC.Input
+				case want.RPC != nil && st == "output":
+					want = want.RPC.Output
+				default:
+					want = want.Dir[st]
+				}
+			}
+			c.Lookups++
+			if got := zr.Find(p); got != want || want == nil {
+				where := "nothing"
+				if got != nil {
+					where = fmt.Sprintf("the %v %s", got.Kind, got.Path())
+				}
+				c.out = append(c.out, Disc{Class: "find-absolute", Detail: fmt.Sprintf("Find(%s) from the module whose augment used that path returned %s, walking the steps leads elsewhere", p, where), Facts: map[string]any{"shorthand_augment": true}})
+				return
+			}
+		}
+	}
 	for _, t := range ts[:1] {
 		mod := ms.Modules[t.rm.Name]
 		if mod == nil {
